@@ -191,3 +191,34 @@ def check_new(ctx, cfg, rule="context-binding"):
         ctx.ob(rule, "premsg-order:%s" % ("initiator" if role else "responder"), order_ok,
                "the initiator's pre-message keys are hashed before the responder's" if order_ok else "pre-message lists are not hashed initiator-first", where(fn), cfg)
     return n
+
+
+def check_psk_sources(ctx, cfg, rule="psk-source"):
+    """the key mixed for a psk token is the configured psks[n]; set_psk(location, key) stores the caller's key in
+    psks[location] unconditionally (after validation); Builder copies its psks into the handshake state"""
+    from ..template import actual_events
+    F = ctx.facts[cfg]
+    fn = F.one_fn("handshakestate::HandshakeState::set_psk")
+    evs = actual_events(ctx, cfg, fn, {"copy_from_slice", "Option::insert", "Option::replace", "Option::get_or_insert", "Option::get_or_insert_with", "TryInto::try_into", "TryFrom::try_from"})
+
+    def key_derived(d, depth=0):
+        s = repr(d)
+        if "('param', 3)" in s:
+            return True
+        # a local filled from the key parameter
+        for e in evs:
+            if e[0] == "call" and e[1] == "copy_from_slice" and repr(e[2][0]) in s and "('param', 3)" in repr(e[2][1]):
+                return True
+        return False
+
+    stores = []
+    for e in evs:
+        if e[0] == "assign" and e[1] == "p1.psks" and "Some" in repr(e[2]) and key_derived(e[2]):
+            stores.append(e)
+        if e[0] == "call" and e[1] in ("Option::insert", "Option::replace") and e[2][0] == ("at", "p1.psks") and key_derived(e[2][1]):
+            stores.append(e)
+    cond = [e for e in stores if e[3]]
+    weak = [e for e in evs if e[0] == "call" and e[1] in ("Option::get_or_insert", "Option::get_or_insert_with")]
+    ok = len(stores) >= 1 and not cond and not weak
+    ctx.ob(rule, "set_psk:stores", ok, "set_psk stores the caller's key in psks[location] whenever its arguments are valid" if ok
+           else ("set_psk only fills an empty slot (get_or_insert): a later key is silently ignored" if weak else "set_psk does not unconditionally store the given key in psks[location]%s" % (" (stored under %s)" % cond[0][3] if cond else "")), where(fn), cfg)
